@@ -159,24 +159,37 @@ Definition facts3 (s : HLane.gst) : list Z * (bool * bool * bool * bool) :=
   (map fst (HLane_proofs.dframes (HLane.stk s 8)),
    (locked_by_self (HLane.st s 11) 8, locked_by_self (HLane.st s 10) 8, locked_by_self (HLane.st s 12) 8, locked_by_self (HLane.st s 11) 5)).
 
+(* facts about the reached state are computed pointwise, each in a lemma of its own (the kernel re-checks one vm_compute per
+   lemma and is never asked to convert a term containing the run) *)
+Lemma at3_eq {A} (f : HLane.gst -> A) (d v : A) s :
+  HLane.run F3 (HLane.init_state F3) acts3 = Some s -> at3 f d = v -> f s = v.
+Proof. unfold at3. intros ->. auto. Qed.
+Lemma run3_ok : at3 (fun _ => true) false = true.
+Proof. vm_compute. reflexivity. Qed.
+Lemma run3_facts : at3 facts3 ([], (false, false, false, false)) = ([11; 10], (true, true, false, false)).
+Proof. vm_compute. reflexivity. Qed.
+Definition asserts3 (s : HLane.gst) : list assert_result * list assert_result :=
+  (map (fun q => assert_queue g3 (HLane.st s q) 8 (frames_of_path g3 (PAsync 11 [])) q) [11; 10; 107; 12; 13],
+   map (fun q => assert_queue_not g3 (HLane.st s q) 8 (frames_of_path g3 (PAsync 11 [])) q) [11; 10; 107; 12; 13]).
+Lemma run3_asserts : at3 asserts3 ([], []) = ([APass; APass; APass; AFail; AFail], [AFail; AFail; AFail; APass; APass]).
+Proof. vm_compute. reflexivity. Qed.
+Lemma acts3_valid : forallb HLane_progress.act_valid acts3 = true.
+Proof. vm_compute. reflexivity. Qed.
+Lemma g3_wf : wf_graph g3 = true.
+Proof. vm_compute. reflexivity. Qed.
+
 Theorem locks_nonvacuous :
   HLane.forest_ok F3 /\ agrees F3 g3 /\ wf_graph g3 = true /\
   exists s, HLane.reach F3 s /\ facts3 s = ([11; 10], (true, true, false, false)) /\
     (* thread 8 is inside the callout of an item of lane 11 (11 -> 10 -> root 107); 12 -> 10 and 13 -> 107 are off its chain *)
-    map (fun q => assert_queue g3 (HLane.st s q) 8 (frames_of_path g3 (PAsync 11 [])) q) [11; 10; 107; 12; 13]
-      = [APass; APass; APass; AFail; AFail] /\
-    map (fun q => assert_queue_not g3 (HLane.st s q) 8 (frames_of_path g3 (PAsync 11 [])) q) [11; 10; 107; 12; 13]
-      = [AFail; AFail; AFail; APass; APass].
+    asserts3 s = ([APass; APass; APass; AFail; AFail], [AFail; AFail; AFail; APass; APass]).
 Proof.
-  split; [exact F3_ok|]. split; [exact g3_agrees|]. split; [vm_compute; reflexivity|].
-  assert (H0 : at3 (fun _ => true) false = true) by (vm_compute; reflexivity).
-  assert (H1 : at3 facts3 ([], (false, false, false, false)) = ([11; 10], (true, true, false, false))) by (vm_compute; reflexivity).
-  assert (H2 : at3 (fun s => map (fun q => assert_queue g3 (HLane.st s q) 8 (frames_of_path g3 (PAsync 11 [])) q) [11; 10; 107; 12; 13]) []
-               = [APass; APass; APass; AFail; AFail]) by (vm_compute; reflexivity).
-  assert (H3 : at3 (fun s => map (fun q => assert_queue_not g3 (HLane.st s q) 8 (frames_of_path g3 (PAsync 11 [])) q) [11; 10; 107; 12; 13]) []
-               = [AFail; AFail; AFail; APass; APass]) by (vm_compute; reflexivity).
-  unfold at3 in *. destruct (HLane.run F3 (HLane.init_state F3) acts3) as [s|] eqn:E; [|discriminate].
-  exists s. split; [|split; [exact H1|split; [exact H2|exact H3]]].
-  apply (HLane_progress.run_reach F3 acts3 (HLane.init_state F3) s); [|vm_compute; reflexivity|exact E].
-  apply Conc.reach_init. reflexivity.
+  split; [exact F3_ok|]. split; [exact g3_agrees|]. split; [exact g3_wf|].
+  pose proof run3_ok as H0. unfold at3 in H0.
+  destruct (HLane.run F3 (HLane.init_state F3) acts3) as [s|] eqn:E; [|discriminate]. clear H0.
+  exists s. split; [|split].
+  - apply (HLane_progress.run_reach F3 acts3 (HLane.init_state F3) s); [|exact acts3_valid|exact E].
+    apply Conc.reach_init. reflexivity.
+  - exact (at3_eq facts3 _ _ s E run3_facts).
+  - exact (at3_eq asserts3 _ _ s E run3_asserts).
 Qed.
